@@ -36,15 +36,24 @@ func guMember(ctx context.Context, name string) error {
 	if name == "broken" {
 		return status.Error(codes.NotFound, "no such device: broken")
 	}
+	if strings.HasPrefix(name, "ok") {
+		return nil
+	}
 	<-ctx.Done()
 	return status.Error(codes.Unavailable, name+" gave up")
 }
 
 func (c guClient) GetOnOff(ctx context.Context, in *traits.GetOnOffRequest, _ ...grpc.CallOption) (*traits.OnOff, error) {
-	return nil, guMember(ctx, in.Name)
+	if err := guMember(ctx, in.Name); err != nil {
+		return nil, err
+	}
+	return &traits.OnOff{State: traits.OnOff_ON}, nil
 }
 func (c guClient) UpdateOnOff(ctx context.Context, in *traits.UpdateOnOffRequest, _ ...grpc.CallOption) (*traits.OnOff, error) {
-	return nil, guMember(ctx, in.Name)
+	if err := guMember(ctx, in.Name); err != nil {
+		return nil, err
+	}
+	return &traits.OnOff{State: traits.OnOff_ON}, nil
 }
 
 type guLight struct {
@@ -52,10 +61,16 @@ type guLight struct {
 }
 
 func (c guLight) GetBrightness(ctx context.Context, in *traits.GetBrightnessRequest, _ ...grpc.CallOption) (*traits.Brightness, error) {
-	return nil, guMember(ctx, in.Name)
+	if err := guMember(ctx, in.Name); err != nil {
+		return nil, err
+	}
+	return &traits.Brightness{LevelPercent: 40}, nil
 }
 func (c guLight) UpdateBrightness(ctx context.Context, in *traits.UpdateBrightnessRequest, _ ...grpc.CallOption) (*traits.Brightness, error) {
-	return nil, guMember(ctx, in.Name)
+	if err := guMember(ctx, in.Name); err != nil {
+		return nil, err
+	}
+	return &traits.Brightness{LevelPercent: 40}, nil
 }
 
 func groupUnaryRun(w *World) {
@@ -70,6 +85,12 @@ func groupUnaryRun(w *World) {
 		names = []string{"broken", "slow1"}
 	case 1:
 		names = []string{"slow1", "slow2", "broken"}
+	}
+	// in one run of three the other members answer at once instead: a failed member among successful ones - whether
+	// that fails the call is the strategy's business, what the call makes of the answers it has is the group's
+	tolerant := t.Flag(1, 3)
+	if tolerant {
+		names = [][]string{{"ok1", "broken", "ok2"}, {"broken", "ok1", "ok2"}, {"ok1", "ok2", "broken"}, {"ok1", "broken"}}[t.Choose(4)]
 	}
 	w.MarkNontrivial()
 	w.Mix(fmt.Sprint(light, update, snames[si], names))
@@ -105,6 +126,37 @@ func groupUnaryRun(w *World) {
 		err = call()
 		returned = true
 	})
+	if tolerant {
+		w.Run()
+		if w.truncated {
+			return
+		}
+		desc := fmt.Sprintf("%s group, update=%v, strategy %s, members %v", map[bool]string{true: "lightpb", false: "onoffpb"}[light], update, snames[si], names)
+		key := map[string]any{"strategy": snames[si], "unary": true, "tolerant": true}
+		if !returned {
+			// (a panic on the caller's goroutine is reported by the kernel as such)
+			for _, tk := range w.taskList() {
+				if tk.Name == "caller" && tk.panicked {
+					return
+				}
+			}
+			w.Violate("caller-stuck", desc+": every member answered at once but the call did not return: "+strings.Join(w.Unfinished(true), ","), key)
+			return
+		}
+		// Any: one success is enough; Most: at most half may fail (1 of 3 is fine, 1 of 2 is fine: not more than half);
+		// Fast: the first success; All: the failure fails the call
+		switch snames[si] {
+		case "Any", "Most", "Fast":
+			if err != nil {
+				w.Violate("wrong-error", fmt.Sprintf("%s: one member failed and the others succeeded: the strategy tolerates that, but the call reported %v", desc, err), key)
+			}
+		case "All":
+			if status.Code(err) != codes.NotFound {
+				w.Violate("wrong-error", fmt.Sprintf("%s: a member failed with NotFound: the call reported %v", desc, err), key)
+			}
+		}
+		return
+	}
 	w.Go("canceller", false, func(task *Task) {
 		task.Settle("at-rest") // every member has run as far as it can: the failure has been delivered and looked at
 		w.Fault("cancel")
